@@ -128,8 +128,11 @@ def around(rng, v):
     if r < 0.8:   # the other letter case, a letter against a digit or punctuation at the same place (dpkg: upper < lower)
         sw = ''.join(c.lower() if c.isupper() else c.upper() if c.islower() else c for c in v)
         return rng.choice((sw, v + 'A', v + 'z', v + 'Z1', v + 'a1'))
-    if r < 0.9:
+    if r < 0.88:
         return rng.choice(BASES)
+    if r < 0.93:
+        # a digit run past the interpreter's limit for str -> int conversion (4300 digits): still an ordinary number
+        return rng.choice((v + '9' * 4400, '1.' + '9' * 5000, '9' * 4301 + ':' + v if ':' not in v else v + '.' + '0' * 4400 + '1'))
     return rng.choice(('1.0+', 'x', '1:', '', '1_0'))   # open / invalid / empty
 
 
